@@ -91,6 +91,27 @@ def permuted_batches(draw):
             "mode": draw(st.sampled_from(dc.MODES)), "ascii": True}
 
 
+def oracle_concurrent(case):
+    from props import c13
+    from vlib import detsched as D
+    return c13.concurrent_check(case, D.make_chooser(case["sched"]), ("C03",))
+
+
+def _concurrent_cases():
+    from props import c13
+    return c13.concurrent_cases()
+
+
+def _sweep_cases(tier):
+    from props import c13
+    return c13.sweep_cases(tier)
+
+
+def _sweep_oracle(case):
+    from props import c13
+    return c13.make_sweep_oracle(("C03",))(case)
+
+
 SUBS = [
     Sub("grammar", oracle, strategy=lambda tier: dc.grammar_cases(max_batch=8),
         budget={"quick": 6000, "thorough": 120000}, shards={"quick": 8, "thorough": 16},
@@ -100,9 +121,20 @@ SUBS = [
         what="batches made of one entry per kind in random order, default and custom dispatch"),
 ]
 
+SUBS.extend([
+    Sub("concurrent", oracle_concurrent, strategy=lambda tier: _concurrent_cases(),
+        budget={"quick": 800, "thorough": 20000}, shards={"quick": 8, "thorough": 16},
+        time_cap={"quick": 100, "thorough": 1500},
+        what="id echo when 2-3 threads share one dispatcher (deterministic scheduler, line granularity)"),
+    Sub("sweep", _sweep_oracle, enumerate=_sweep_cases, shards={"quick": 8, "thorough": 8},
+        time_cap={"quick": 100, "thorough": 1500},
+        what="id echo under every single preemption at a distinct source line of 8 two-thread workloads"),
+])
+
 CLAIM = {
     "technique": "property-based testing (Hypothesis) of the dispatcher against a reference model of (id, result|error) sequences",
     "text": "Generated-input search: batches and single requests over every id type and entry kind, three dispatch modes, both versions; the parsed output is compared element by element with a statement-derived reference model (ids type-strictly, count, order, '' for no response).",
     "note": "Trusts the reference model in vlib/refmodel.py and Python's json. Random search only (no exhaustive sub-domain).",
     "design_ref": "DESIGN.md section 4, C03",
+    "engine": "E1+E2",
 }
